@@ -43,6 +43,16 @@ def convertChars (name : List Char) (isClass : Bool) : List Char :=
 def convertName (name : String) (safeDs : Bool) (isClass : Bool := false) : String :=
   if name = "_" || !safeDs then name else String.ofList (convertChars name.toList isClass)
 
+/-- `_convert_name_to_convention` on a dotted path (repair: every segment is converted on its own) -/
+def convertPath (path : String) (safeDs : Bool) : String :=
+  joinWith "." ((pySplit path '.').map fun seg => convertName seg safeDs)
+
+/-- the whole of `_convert_name_to_convention` as it is called with any string: `if "." in name` the segments are
+    converted one by one (with the same `is_class_name`), otherwise the name itself -/
+def convertAny (name : String) (safeDs : Bool) (isClass : Bool := false) : String :=
+  if name.toList.contains '.' then joinWith "." ((pySplit name '.').map fun seg => convertName seg safeDs isClass)
+  else convertName name safeDs isClass
+
 /-- `_replace_if_safeds_keyword` -/
 def escapeKeyword (k : String) : String :=
   if Generated.keywords.contains k then Generated.keywordWrap.1 ++ k ++ Generated.keywordWrap.2 else k
